@@ -1,3 +1,11 @@
+(** * ArcRAProofs: all-schedule theorems for the share-count protocol machine of ArcRA.v.
+    Layer 1, [Inv0]: ordering/coherence invariant (counter value = alive handles - 1; a stale 0 is superseded in the eyes
+      of some holder; every write is known to every holder; every read is known to a holder of its handle or, once that
+      handle is dead, was released into the latest counter message).  [step_inv0] covers all ten ops incl. [Unwrap].
+    Layer 2, [Inv] = [Inv0] + accounting: no alive handle -> freed; #free accesses = (freed ? 1 : 0); once freed, the
+      free is the most recent access.  [step_inv], [run_inv].
+    Main theorems: [race_free_all_schedules], [freed_iff_no_handle], [no_double_free], [grant_exclusive] (one step),
+      [mutation_is_exclusive] and [release_after_last_access] (whole executions).  All axiom-free. *)
 From Coq Require Import List Arith Lia Bool.
 Import ListNotations.
 From Hip Require Import ArcRA ArcRALib.
@@ -23,7 +31,7 @@ Proof. induction l as [|z r IH]; cbn; auto. destruct (Nat.eqb x z) eqn:E; cbn; [
 (* the threads that currently hold (a borrow of) handle h: its owner and everybody it is lent to *)
 Definition knowers (s : st) (h : nat) : list nat := owner (hnd_at s h) :: lent (hnd_at s h).
 
-Record Inv (s : st) : Prop := {
+Record Inv0 (s : st) : Prop := {
   i_err : err s = false;
   i_ms : length (ms s) >= 1;
   i_cnt : nal (hds s) > 0 -> freed s = false /\ mval (msg_at s (top s)) + 1 = nal (hds s);
@@ -35,7 +43,7 @@ Record Inv (s : st) : Prop := {
         aep a <= clk (ths s u) (atid a);
   i_R : forall a, In a (accs s) -> akd a = AR ->
         (alive (hnd_at s (ahnd a)) = true -> exists u, In u (knowers s (ahnd a)) /\ aep a <= clk (ths s u) (atid a)) /\
-        (alive (hnd_at s (ahnd a)) = false -> aep a <= mview (msg_at s (top s)) (atid a));
+        (alive (hnd_at s (ahnd a)) = false -> nal (hds s) > 0 -> aep a <= mview (msg_at s (top s)) (atid a));
   i_F : forall a, In a (accs s) -> akd a = AF -> freed s = true;
   i_H : forall a, In a (accs s) -> ahnd a < length (hds s);
 }.
@@ -48,8 +56,8 @@ Proof. intros H. eapply nal_alive; eauto. Qed.
 (* any update of the thread map that only increases knowledge preserves the invariant *)
 Definition with_ths (s : st) (f : nat -> thr) : st :=
   {| ms := ms s; ths := f; hds := hds s; accs := accs s; freed := freed s; err := err s |}.
-Lemma inv_ths_mono s f : Inv s ->
-  (forall u, vle (clk (ths s u)) (clk (f u)) /\ seen (ths s u) <= seen (f u) /\ seen (f u) <= top s) -> Inv (with_ths s f).
+Lemma inv_ths_mono s f : Inv0 s ->
+  (forall u, vle (clk (ths s u)) (clk (f u)) /\ seen (ths s u) <= seen (f u) /\ seen (f u) <= top s) -> Inv0 (with_ths s f).
 Proof.
   intros I Hm. destruct I. split; cbn [err ms ths hds accs freed with_ths]; auto.
   - intros u. apply Hm.
@@ -59,17 +67,17 @@ Proof.
     exists u. split; [exact Hu|]. destruct (Hm u) as (Hv & _). specialize (Hv (atid a)). lia.
 Qed.
 
-Lemma with_thr_mono s t x : vle (clk (ths s t)) (clk x) -> seen (ths s t) <= seen x -> seen x <= top s -> Inv s ->
+Lemma with_thr_mono s t x : vle (clk (ths s t)) (clk x) -> seen (ths s t) <= seen x -> seen x <= top s -> Inv0 s ->
   forall u, vle (clk (ths s u)) (clk (updf (ths s) t x u)) /\ seen (ths s u) <= seen (updf (ths s) t x u) /\ seen (updf (ths s) t x u) <= top s.
 Proof.
   intros Hc Hs Ht I u. unfold updf. destruct (Nat.eqb u t) eqn:E.
   - apply Nat.eqb_eq in E. subst u. auto.
   - repeat split; [apply vle_refl|lia|apply (i_seen _ I)].
 Qed.
-Lemma inv_with_thr s t x : Inv s -> vle (clk (ths s t)) (clk x) -> seen (ths s t) <= seen x -> seen x <= top s -> Inv (with_thr s t x).
+Lemma inv_with_thr s t x : Inv0 s -> vle (clk (ths s t)) (clk x) -> seen (ths s t) <= seen x -> seen x <= top s -> Inv0 (with_thr s t x).
 Proof. intros I Hc Hs Ht. apply (inv_ths_mono s (updf (ths s) t x) I). now apply with_thr_mono. Qed.
 
-Lemma sync_to_mono s t t' : Inv s ->
+Lemma sync_to_mono s t t' : Inv0 s ->
   let c := vbump t (clk (ths s t)) in
   (forall u, vle (clk (ths s u)) (clk (sync_to s t c t' u)) /\ seen (ths s u) <= seen (sync_to s t c t' u) /\ seen (sync_to s t c t' u) <= top s)
   /\ vle (clk (ths s t)) (clk (sync_to s t c t' t')) /\ seen (ths s t) <= seen (sync_to s t c t' t').
@@ -93,13 +101,13 @@ Proof.
 Qed.
 
 (* a read through a handle by anybody holding it (owner or borrower) *)
-Lemma inv_do_read s t h : Inv s -> alive (hnd_at s h) = true -> In t (knowers s h) -> Inv (do_read s t h).
+Lemma inv_do_read s t h : Inv0 s -> alive (hnd_at s h) = true -> In t (knowers s h) -> Inv0 (do_read s t h).
 Proof.
   intros I Ha Hk. unfold do_read. set (T := ths s t). set (c := vbump t (clk T)).
   assert (vle (clk T) c) as Hcb by apply vle_bump.
   pose proof (alive_lt _ _ Ha) as Hlt. destruct (i_cnt _ I (alive_nal _ _ Ha)) as [Hfr _].
   set (s1 := with_thr s t {| clk := c; seen := seen T; pend := pend T |}).
-  assert (Inv s1) as I1 by (apply inv_with_thr; cbn; auto; apply (i_seen _ I)).
+  assert (Inv0 s1) as I1 by (apply inv_with_thr; cbn; auto; apply (i_seen _ I)).
   assert (safe_access s1 c AR = true) as Hsafe.
   { apply safe_access_true; [exact Hfr|]. cbn. intros a Hin Hcf. destruct (akd a) eqn:Ek; cbn in Hcf; try discriminate.
     - pose proof (i_W _ I a h t Hin Ek Ha Hk) as H1. specialize (Hcb (atid a)). fold T in H1. lia.
@@ -118,7 +126,7 @@ Proof.
 Qed.
 
 (* an increment through a handle by anybody holding it *)
-Lemma inv_do_clone p s t h : Inv s -> alive (hnd_at s h) = true -> In t (knowers s h) -> Inv (do_clone p s t).
+Lemma inv_do_clone p s t h : Inv0 s -> alive (hnd_at s h) = true -> In t (knowers s h) -> Inv0 (do_clone p s t).
 Proof.
   intros I Ha Hk. unfold do_clone. set (T := ths s t). set (c := vbump t (clk T)).
   assert (vle (clk T) c) as Hcb by apply vle_bump.
@@ -140,7 +148,7 @@ Proof.
   { intros u. unfold s1. cbn. unfold updf. destruct (Nat.eqb u t) eqn:E; [|split; [apply vle_refl|lia]].
     apply Nat.eqb_eq in E. subst u. cbn. fold T. split; [exact Hcb|]. pose proof (i_seen _ I t). fold T in H. lia. }
   assert (seen (ths s1 t) = S (top s) /\ clk (ths s1 t) = c) as [Hst Hct] by (unfold s1; cbn; rewrite updf_eq; cbn; auto).
-  change (Inv s1). split.
+  change (Inv0 s1). split.
   - apply I.
   - unfold s1; cbn. rewrite app_length; cbn; lia.
   - intros _. split; [exact Hfr|]. rewrite Htop1, Hmnew. unfold s1; cbn [hds]. rewrite nal_app. cbn. fold m in Hcnt. lia.
@@ -168,16 +176,16 @@ Proof.
     rewrite Hhold by exact Hg. split.
     + intros Hag. destruct (R1 Hag) as (u & Hu & Hle). exists u. split; [unfold knowers; rewrite Hhold by exact Hg; exact Hu|].
       destruct (Hmono u) as [Hv _]. specialize (Hv (atid a)). lia.
-    + intros Hag. specialize (R2 Hag). rewrite Htop1, Hmnew. unfold nm. cbn. fold m in R2. destruct (incr_release p); unfold vjoin; lia.
+    + intros Hag _. specialize (R2 Hag Hn). rewrite Htop1, Hmnew. unfold nm. cbn. fold m in R2. destruct (incr_release p); unfold vjoin; lia.
   - intros a Hin. apply (i_F _ I a Hin).
   - intros a Hin. change (In a (accs s)) in Hin. unfold s1; cbn. rewrite app_length; cbn. pose proof (i_H _ I a Hin). lia.
 Qed.
 
 (* re-labelling who holds handle h, together with a synchronising hand-over of knowledge from the actor t to r *)
-Lemma inv_rehandle s t r h H' : Inv s -> alive (hnd_at s h) = true -> alive H' = true ->
+Lemma inv_rehandle s t r h H' : Inv0 s -> alive (hnd_at s h) = true -> alive H' = true ->
   (forall u, In u (knowers s h) -> In u (owner H' :: lent H') \/ (u = t /\ In r (owner H' :: lent H'))) ->
   (forall u', In u' (owner H' :: lent H') -> In u' (knowers s h) \/ (u' = r /\ In t (knowers s h))) ->
-  Inv {| ms := ms s; ths := sync_to s t (vbump t (clk (ths s t))) r; hds := updl (hds s) h H';
+  Inv0 {| ms := ms s; ths := sync_to s t (vbump t (clk (ths s t))) r; hds := updl (hds s) h H';
          accs := accs s; freed := freed s; err := err s |}.
 Proof.
   intros I Ha Ha' HE HU. set (c := vbump t (clk (ths s t))).
@@ -206,7 +214,7 @@ Proof.
       + exists u'. split; [exact Hin|]. apply Hmono.
       + exists t. split; [exact Hin|exact Hrc].
     - unfold knowers in Hu'. rewrite (Hother _ Hne) in Hu'. exists u'. split; [exact Hu'|apply Hmono]. }
-  change (Inv s1). split.
+  change (Inv0 s1). split.
   - apply I.
   - apply I.
   - intros _. split; [exact Hfr|]. rewrite Hnal. exact Hcnt.
@@ -215,15 +223,15 @@ Proof.
     destruct (HEx g u Hg Hu) as (u' & Hu' & _ & Hs'). exists u'. split; [exact Hu'|]. lia.
   - intros a g u' Hin Hk Hg Hu'. rewrite Hal in Hg. destruct (HUn g u' Hg Hu') as (u & Hu & Hv).
     pose proof (i_W _ I a g u Hin Hk Hg Hu). specialize (Hv (atid a)). lia.
-  - intros a Hin Hk. destruct (i_R _ I a Hin Hk) as [R1 R2]. rewrite Hal. split; [|exact R2].
+  - intros a Hin Hk. destruct (i_R _ I a Hin Hk) as [R1 R2]. rewrite Hal. split; [|intros X _; exact (R2 X Hn)].
     intros Hg. destruct (R1 Hg) as (u & Hu & Hle). destruct (HEx _ u Hg Hu) as (u' & Hu' & Hv & _).
     exists u'. split; [exact Hu'|]. specialize (Hv (atid a)). lia.
   - apply I.
   - intros a Hin. unfold s1; cbn [hds]. rewrite updl_length. apply (i_H _ I a Hin).
 Qed.
 
-Lemma inv_access_free s t h c : Inv s -> (forall g, alive (hnd_at s g) = false) -> h < length (hds s) ->
-  safe_access s c AF = true -> Inv (do_access s t h c AF).
+Lemma inv_access_free s t h c : Inv0 s -> (forall g, alive (hnd_at s g) = false) -> h < length (hds s) ->
+  safe_access s c AF = true -> Inv0 (do_access s t h c AF).
 Proof.
   intros I Hnone Hlt Hsafe. destruct I. unfold do_access. split; cbn [err ms ths hds accs freed].
   - rewrite i_err0, Hsafe. reflexivity.
@@ -237,6 +245,50 @@ Proof.
   - intros a [<-|Hin]; [cbn; exact Hlt|auto].
 Qed.
 
+(* once every handle is dead and the box is freed the remaining clauses are vacuous *)
+Lemma inv0_all_dead s : err s = false -> length (ms s) >= 1 -> (forall t, seen (ths s t) <= top s) ->
+  nal (hds s) = 0 -> freed s = true -> (forall a, In a (accs s) -> ahnd a < length (hds s)) -> Inv0 s.
+Proof.
+  intros He Hm Hs Hz Hf HH.
+  assert (forall g, alive (hnd_at s g) = false) as Hnone by (intros g; apply nal_zero_dead; auto).
+  split.
+  - exact He.
+  - exact Hm.
+  - intros Hpos. lia.
+  - exact Hs.
+  - intros h j Ha. rewrite Hnone in Ha. discriminate.
+  - intros a h u _ _ Ha. rewrite Hnone in Ha. discriminate.
+  - intros a _ _. split; [intros Ha; rewrite Hnone in Ha; discriminate | intros _ Hp; lia].
+  - intros a _ _. exact Hf.
+  - exact HH.
+Qed.
+
+(* key lemma 1: the sole (un-lent) holder of a handle that reads 0 has read the latest message, and its handle is the
+   only one alive *)
+Lemma sole_latest s t h j : Inv0 s -> alive (hnd_at s h) = true -> knowers s h = [t] ->
+  seen (ths s t) <= j -> j <= top s -> mval (msg_at s j) = 0 -> j = top s /\ nal (hds s) = 1.
+Proof.
+  intros I Ha Hkn Hsj Hjt Ez.
+  assert (j = top s) as Hj.
+  { destruct (Nat.eq_dec j (top s)); auto. exfalso.
+    destruct (i_K _ I h j Ha ltac:(lia) Ez) as (u & Hu & Hs). rewrite Hkn in Hu. destruct Hu as [<-|[]]. lia. }
+  split; [exact Hj|]. destruct (i_cnt _ I (alive_nal _ _ Ha)) as [_ Hcnt]. subst j. lia.
+Qed.
+(* key lemma 2: the sole holder of the only alive handle, once it has acquired the view of the latest message, is
+   ordered after every access ever made to the payload *)
+Lemma sole_hb s t h c' : Inv0 s -> alive (hnd_at s h) = true -> knowers s h = [t] -> nal (hds s) = 1 ->
+  vle (clk (ths s t)) c' -> vle (mview (msg_at s (top s))) c' -> forall a, In a (accs s) -> aep a <= c' (atid a).
+Proof.
+  intros I Ha Hkn H1 Hc Hm a Hin. pose proof (alive_nal _ _ Ha) as Hn. destruct (i_cnt _ I Hn) as [Hfr _].
+  specialize (Hc (atid a)). specialize (Hm (atid a)). destruct (akd a) eqn:Ek.
+  - destruct (i_R _ I a Hin Ek) as [R1 R2]. destruct (alive (hnd_at s (ahnd a))) eqn:Eg.
+    + assert (ahnd a = h) as Eh by (exact (nal_one (hds s) (ahnd a) h dh H1 eq_refl Eg Ha)).
+      destruct (R1 eq_refl) as (u & Hu & Hle). rewrite Eh, Hkn in Hu. destruct Hu as [<-|[]]. lia.
+    + specialize (R2 eq_refl Hn). lia.
+  - assert (In t (knowers s h)) as Hkt by (rewrite Hkn; now left). pose proof (i_W _ I a h t Hin Ek Ha Hkt). lia.
+  - rewrite (i_F _ I a Hin Ek) in Hfr. discriminate.
+Qed.
+
 Lemma owner_knower s t h : alive (hnd_at s h) && Nat.eqb (owner (hnd_at s h)) t = true ->
   alive (hnd_at s h) = true /\ owner (hnd_at s h) = t /\ In t (knowers s h).
 Proof. intros G. apply andb_prop in G as [A B]. apply Nat.eqb_eq in B. repeat split; auto. unfold knowers. now left. Qed.
@@ -244,12 +296,12 @@ Lemma borrower_knower s t h : alive (hnd_at s h) && memn t (lent (hnd_at s h)) =
   alive (hnd_at s h) = true /\ In t (lent (hnd_at s h)) /\ In t (knowers s h).
 Proof. intros G. apply andb_prop in G as [A B]. apply memn_In in B. repeat split; auto. unfold knowers. now right. Qed.
 
-Theorem step_inv p s t h o : sound_proto p = true -> Inv s -> Inv (step p s t h o).
+Theorem step_inv0 p s t h o : sound_proto p = true -> Inv0 s -> Inv0 (step p s t h o).
 Proof.
   intros Hp I. unfold sound_proto in Hp. apply andb_prop in Hp as [Hp Hp3]. apply andb_prop in Hp as [Hp1 Hp2]. unfold step.
   set (H := hnd_at s h). set (T := ths s t). set (c := vbump t (clk T)).
   assert (vle (clk T) c) as Hcb by apply vle_bump.
-  destruct o as [| | |j|t'|t'| | |].
+  destruct o as [| | |j|t'|t'| | | |j].
   - (* Read *) destruct (alive H && Nat.eqb (owner H) t) eqn:G; [|exact I]. destruct (owner_knower _ _ _ G) as (Ha & _ & Hk). now apply inv_do_read.
   - (* Clone *) destruct (alive H && Nat.eqb (owner H) t) eqn:G; [|exact I]. destruct (owner_knower _ _ _ G) as (Ha & _ & Hk). eapply inv_do_clone; eauto.
   - (* Drop *)
@@ -279,7 +331,7 @@ Proof.
     assert (forall u, vle (clk (ths s u)) (clk (ths s1 u)) /\ seen (ths s u) <= seen (ths s1 u)) as Hmono.
     { intros u. unfold s1. cbn. unfold updf. destruct (Nat.eqb u t) eqn:E; [|split; [apply vle_refl|lia]].
       apply Nat.eqb_eq in E. subst u. cbn. fold T. split; [exact Hcc'|]. pose proof (i_seen _ I t). fold T in H0. lia. }
-    assert (Inv s1) as I1.
+    assert (Inv0 s1) as I1.
     { split.
       - apply I.
       - unfold s1; cbn. rewrite app_length; cbn; lia.
@@ -296,26 +348,21 @@ Proof.
         pose proof (i_W _ I a g u Hin Hk Hg Hu). destruct (Hmono u) as [Hv _]. specialize (Hv (atid a)). lia.
       - intros a Hin Hk. change (In a (accs s)) in Hin. destruct (i_R _ I a Hin Hk) as [R1 R2]. rewrite Hm1. cbn [mview].
         destruct (Nat.eq_dec (ahnd a) h) as [Eg|Eg].
-        + rewrite Eg in *. split; [intros X; congruence|]. intros _. destruct (R1 Ha) as (u & Hu & Hle). rewrite Hkn in Hu. destruct Hu as [<-|[]].
+        + rewrite Eg in *. split; [intros X; congruence|]. intros _ _. destruct (R1 Ha) as (u & Hu & Hle). rewrite Hkn in Hu. destruct Hu as [<-|[]].
           fold T in Hle. specialize (Hcb (atid a)). unfold vjoin. lia.
         + rewrite (Hother _ Eg). split.
           * intros Hag. destruct (R1 Hag) as (u & Hu & Hle). exists u. split; [unfold knowers; rewrite (Hother _ Eg); exact Hu|].
             destruct (Hmono u) as [Hv _]. specialize (Hv (atid a)). lia.
-          * intros Hag. specialize (R2 Hag). fold m in R2. unfold vjoin. lia.
+          * intros Hag _. specialize (R2 Hag Hn). fold m in R2. unfold vjoin. lia.
       - intros a Hin. apply (i_F _ I a Hin).
       - intros a Hin. change (In a (accs s)) in Hin. unfold s1; cbn [hds]. rewrite updl_length. apply (i_H _ I a Hin). }
     destruct (mval m =? 0) eqn:Ez; [|exact I1].
     apply Nat.eqb_eq in Ez.
     assert (nal (hds s) = 1) as H1 by (fold m in Hcnt; lia). assert (nal (hds s1) = 0) as H0 by lia.
     assert (safe_access s1 c' AF = true) as Hsafe.
-    { apply safe_access_true; [exact Hfr|]. unfold s1; cbn [accs]. intros a Hin _. unfold c'. destruct (akd a) eqn:Ek.
-      - destruct (i_R _ I a Hin Ek) as [R1 R2]. destruct (alive (hnd_at s (ahnd a))) eqn:Eg.
-        + assert (ahnd a = h) as Eh by (exact (nal_one (hds s) (ahnd a) h dh H1 eq_refl Eg Ha)).
-          destruct (R1 eq_refl) as (u & Hu & Hle). rewrite Eh, Hkn in Hu. destruct Hu as [<-|[]]. fold T in Hle. specialize (Hcb (atid a)). unfold vjoin. lia.
-        + specialize (R2 eq_refl). fold m in R2. unfold pd, vjoin. lia.
-      - assert (In t (knowers s h)) as Hkt by (rewrite Hkn; now left).
-        pose proof (i_W _ I a h t Hin Ek Ha Hkt) as H2. fold T in H2. specialize (Hcb (atid a)). unfold vjoin. lia.
-      - rewrite (i_F _ I a Hin Ek) in Hfr. discriminate. }
+    { apply safe_access_true; [exact Hfr|]. unfold s1; cbn [accs]. intros a Hin _.
+      apply (sole_hb s t h c' I Ha Hkn H1 Hcc'); [|exact Hin].
+      unfold c', pd. intros x. unfold vjoin. fold m. lia. }
     assert (forall g, alive (hnd_at s1 g) = false) as Hnone by (intros g; apply nal_zero_dead; auto).
     apply inv_access_free; auto. unfold s1; cbn [hds]. rewrite updl_length. exact Hlt.
   - (* TryMut *)
@@ -330,24 +377,14 @@ Proof.
     destruct (mval m =? 0) eqn:Ez.
     2:{ apply inv_with_thr; cbn; auto. }
     apply Nat.eqb_eq in Ez. rewrite Hp3.
-    (* key lemma: the sole holder of a handle that reads 0 has read the latest message *)
-    assert (j = top s) as Hj.
-    { destruct (Nat.eq_dec j (top s)); auto. exfalso.
-      destruct (i_K _ I h j Ha ltac:(lia) Ez) as (u & Hu & Hs). rewrite Hkn in Hu. destruct Hu as [<-|[]]. fold T in Hs. lia. }
-    assert (nal (hds s) = 1) as H1 by (subst j; fold m in Hcnt; lia).
+    destruct (sole_latest s t h j I Ha Hkn Hsj Hjt Ez) as [Hj H1].
     set (c' := vjoin c pd).
     set (s1 := with_thr s t {| clk := c'; seen := j; pend := pd |}).
     assert (vle (clk T) c') as Hcc' by (eapply vle_trans; [exact Hcb | apply vle_join_l]).
-    assert (Inv s1) as I1 by (apply inv_with_thr; cbn; auto).
-    assert (safe_access s1 c' AW = true) as Hsafe.
-    { apply safe_access_true; [exact Hfr|]. cbn. intros a Hin _. destruct (akd a) eqn:Ek.
-      - destruct (i_R _ I a Hin Ek) as [R1 R2]. destruct (alive (hnd_at s (ahnd a))) eqn:Eg.
-        + assert (ahnd a = h) as Eh by (exact (nal_one (hds s) (ahnd a) h dh H1 eq_refl Eg Ha)).
-          destruct (R1 eq_refl) as (u & Hu & Hle). rewrite Eh, Hkn in Hu. destruct Hu as [<-|[]]. fold T in Hle. specialize (Hcc' (atid a)). lia.
-        + specialize (R2 eq_refl). rewrite <- Hj in R2. fold m in R2. unfold c', pd, vjoin. lia.
-      - assert (In t (knowers s h)) as Hkt by (rewrite Hkn; now left).
-        pose proof (i_W _ I a h t Hin Ek Ha Hkt) as H2. fold T in H2. specialize (Hcc' (atid a)). lia.
-      - rewrite (i_F _ I a Hin Ek) in Hfr. discriminate. }
+    assert (vle (mview (msg_at s (top s))) c') as Hmc by (rewrite <- Hj; fold m; unfold c', pd; intros x; unfold vjoin; lia).
+    pose proof (sole_hb s t h c' I Ha Hkn H1 Hcc' Hmc) as Hhb.
+    assert (Inv0 s1) as I1 by (apply inv_with_thr; cbn; auto).
+    assert (safe_access s1 c' AW = true) as Hsafe by (apply safe_access_true; [exact Hfr|]; intros a Hin _; apply Hhb; exact Hin).
     destruct I1. unfold do_access. split; cbn [err ms ths hds accs freed].
     + rewrite i_err0, Hsafe. reflexivity.
     + exact i_ms0.
@@ -384,11 +421,149 @@ Proof.
     + intros u Hu. unfold knowers in Hu. destruct Hu as [<-|Hu]; [left; now left|].
       destruct (Nat.eq_dec u t) as [->|Hne]; [right; split; [reflexivity|now left] | left; right; now apply rem1_keep].
     + intros u' [<-|Hu']; left; unfold knowers; [now left | right; eapply rem1_In; eauto].
+  - (* Unwrap *)
+    destruct (alive H && Nat.eqb (owner H) t && match lent H with [] => true | _ :: _ => false end) eqn:G; cbn [negb]; [|exact I].
+    apply andb_prop in G as [G GL]. destruct (owner_knower _ _ _ G) as (Ha & Ho & _).
+    assert (lent H = []) as HL by (destruct (lent H); [reflexivity|discriminate]).
+    assert (knowers s h = [t]) as Hkn by (unfold knowers; unfold H in HL; now rewrite Ho, HL).
+    pose proof (alive_lt _ _ Ha) as Hlt. pose proof (alive_nal _ _ Ha) as Hn. destruct (i_cnt _ I Hn) as [Hfr Hcnt].
+    destruct ((seen T <=? j) && (j <=? top s)) eqn:Gj; cbn [negb]; [|exact I].
+    apply andb_prop in Gj as [Hsj Hjt]. apply Nat.leb_le in Hsj. apply Nat.leb_le in Hjt.
+    set (m := msg_at s j). set (pd := vjoin (pend T) (mview m)).
+    destruct (mval m =? 0) eqn:Ez.
+    2:{ apply inv_with_thr; cbn; auto. }
+    apply Nat.eqb_eq in Ez. rewrite Hp3.
+    destruct (sole_latest s t h j I Ha Hkn Hsj Hjt Ez) as [Hj H1].
+    set (c' := vjoin c pd).
+    assert (vle (clk T) c') as Hcc' by (eapply vle_trans; [exact Hcb | apply vle_join_l]).
+    assert (vle (mview (msg_at s (top s))) c') as Hmc by (rewrite <- Hj; fold m; unfold c', pd; intros x; unfold vjoin; lia).
+    pose proof (sole_hb s t h c' I Ha Hkn H1 Hcc' Hmc) as Hhb.
+    set (s1 := {| ms := ms s; ths := updf (ths s) t {| clk := c'; seen := j; pend := pd |};
+                  hds := updl (hds s) h {| owner := t; alive := false; lent := [] |};
+                  accs := accs s; freed := freed s; err := err s |}).
+    assert (safe_access s1 c' AW = true) as Hs1 by (apply safe_access_true; [exact Hfr|]; intros a Hin _; apply Hhb; exact Hin).
+    set (s2 := do_access s1 t h c' AW).
+    assert (safe_access s2 c' AF = true) as Hs2.
+    { apply safe_access_true; [exact Hfr|]. intros a [<-|Hin] _; [cbn; lia | apply Hhb; exact Hin]. }
+    apply inv0_all_dead.
+    + unfold do_access at 1. cbn [err]. rewrite Hs2. unfold s2, do_access. cbn [err]. rewrite Hs1. unfold s1. cbn [err].
+      rewrite (i_err _ I). reflexivity.
+    + exact (i_ms _ I).
+    + intros u. change (seen (updf (ths s) t {| clk := c'; seen := j; pend := pd |} u) <= top s).
+      unfold updf. destruct (Nat.eqb u t); cbn [seen]; [exact Hjt|apply (i_seen _ I)].
+    + change (nal (updl (hds s) h {| owner := t; alive := false; lent := [] |}) = 0).
+      pose proof (nal_updl (hds s) h {| owner := t; alive := false; lent := [] |} dh Hlt) as X.
+      unfold H, hnd_at in Ha. rewrite Ha in X. cbn [alive] in X. lia.
+    + reflexivity.
+    + change (forall a, In a (accs (do_access s2 t h c' AF)) -> ahnd a < length (updl (hds s) h {| owner := t; alive := false; lent := [] |})).
+      rewrite updl_length. intros a [<-|[<-|Hin]]; [exact Hlt|exact Hlt|apply (i_H _ I a Hin)].
+Qed.
+
+
+(* ---------- accounting layer: the box is freed iff no handle is left; at most one free is ever recorded ---------- *)
+Definition isAF (a : acc) : bool := match akd a with AF => true | _ => false end.
+Definition nfree (s : st) : nat := length (filter isAF (accs s)).
+
+(** The full invariant.  [i_0]: the ordering/coherence invariant above.  [i_Z]: when the last handle is gone the box has
+    been freed (the converse, "freed -> no handle", is the contrapositive of [i_cnt]).  [i_D]: the number of free
+    accesses ever recorded is 1 if the box is freed and 0 otherwise.  [i_L]: once freed, the free is the most recent
+    access in the log (nothing touches the payload afterwards). *)
+Definition acct (s : st) : Prop :=
+  nfree s = (if freed s then 1 else 0) /\ (freed s = true -> exists a l, accs s = a :: l /\ akd a = AF).
+Record Inv (s : st) : Prop := {
+  i_0 : Inv0 s;
+  i_Z : nal (hds s) = 0 -> freed s = true;
+  i_D : nfree s = if freed s then 1 else 0;
+  i_L : freed s = true -> exists a l, accs s = a :: l /\ akd a = AF;
+}.
+
+(* any recorded access that does not set [err] happened before the free; so a free access is the first one *)
+Lemma access_ok_unfreed s t h c k : err (do_access s t h c k) = false -> freed s = false.
+Proof.
+  unfold do_access. cbn [err]. intros He. apply orb_false_elim in He as [_ He]. apply negb_false_iff in He.
+  unfold safe_access in He. apply andb_prop in He as [Hf _]. now apply negb_true_iff in Hf.
+Qed.
+Lemma acct_access s t h c k : err (do_access s t h c k) = false -> acct s -> acct (do_access s t h c k).
+Proof.
+  intros He [Hd _]. pose proof (access_ok_unfreed _ _ _ _ _ He) as Hf. rewrite Hf in Hd. split.
+  - unfold nfree, do_access in *. cbn [accs freed filter]. unfold isAF at 1. cbn [akd].
+    destruct k; cbn [length]; rewrite ?Hf; lia.
+  - unfold do_access. cbn [accs freed]. destruct k; [congruence|congruence|]. intros _. eexists _, _. split; reflexivity.
+Qed.
+Lemma acct_same s s' : accs s' = accs s -> freed s' = freed s -> acct s -> acct s'.
+Proof. intros Ea Ef. unfold acct, nfree. now rewrite Ea, Ef. Qed.
+
+Lemma exclusive_facts s t h :
+  alive (hnd_at s h) && Nat.eqb (owner (hnd_at s h)) t && match lent (hnd_at s h) with [] => true | _ :: _ => false end = true ->
+  alive (hnd_at s h) = true /\ owner (hnd_at s h) = t /\ lent (hnd_at s h) = [] /\ knowers s h = [t].
+Proof.
+  intros G. apply andb_prop in G as [G GL]. destruct (owner_knower _ _ _ G) as (Ha & Ho & _).
+  assert (lent (hnd_at s h) = []) as HL by (destruct (lent (hnd_at s h)); [reflexivity|discriminate]).
+  repeat split; auto. unfold knowers. now rewrite Ho, HL.
+Qed.
+Lemma nal_relabel s h H' : alive (hnd_at s h) = true -> alive H' = true -> nal (updl (hds s) h H') = nal (hds s).
+Proof.
+  intros Ha Ha'. pose proof (nal_updl (hds s) h H' dh (alive_lt _ _ Ha)) as X. unfold hnd_at in Ha. rewrite Ha, Ha' in X. lia.
+Qed.
+Lemma nal_kill s h H' : alive (hnd_at s h) = true -> alive H' = false -> nal (updl (hds s) h H') + 1 = nal (hds s).
+Proof.
+  intros Ha Ha'. pose proof (nal_updl (hds s) h H' dh (alive_lt _ _ Ha)) as X. unfold hnd_at in Ha. rewrite Ha, Ha' in X. lia.
+Qed.
+
+Lemma step_acct p s t h o : Inv0 s -> Inv0 (step p s t h o) ->
+  (nal (hds s) = 0 -> freed s = true) -> acct s ->
+  (nal (hds (step p s t h o)) = 0 -> freed (step p s t h o) = true) /\ acct (step p s t h o).
+Proof.
+  intros I I' Z D. pose proof (i_err _ I') as He. revert He. clear I'. unfold step.
+  set (H := hnd_at s h). set (T := ths s t). set (c := vbump t (clk T)).
+  destruct o as [| | |j|t'|t'| | | |j].
+  - (* Read *) destruct (alive H && Nat.eqb (owner H) t); [|now split]. unfold do_read. intros He. split; [exact Z|].
+    now apply acct_access.
+  - (* Clone *) destruct (alive H && Nat.eqb (owner H) t); [|now split]. unfold do_clone. intros _. split; [|exact D].
+    cbn [hds]. rewrite nal_app. cbn. lia.
+  - (* Drop *)
+    destruct (alive H && Nat.eqb (owner H) t && match lent H with [] => true | _ :: _ => false end) eqn:G; cbn [negb]; [|now split].
+    destruct (exclusive_facts _ _ _ G) as (Ha & _). destruct (i_cnt _ I (alive_nal _ _ Ha)) as [_ Hcnt].
+    destruct (mval (msg_at s (top s)) =? 0) eqn:Ez.
+    + intros He. split; [reflexivity|]. apply acct_access; [exact He|exact D].
+    + intros _. apply Nat.eqb_neq in Ez. split; [|exact D]. cbn [hds].
+      pose proof (nal_kill s h {| owner := t; alive := false; lent := [] |} Ha eq_refl). lia.
+  - (* TryMut *)
+    destruct (alive H && Nat.eqb (owner H) t && match lent H with [] => true | _ :: _ => false end); cbn [negb]; [|now split].
+    destruct ((seen T <=? j) && (j <=? top s)); cbn [negb]; [|now split].
+    destruct (mval (msg_at s j) =? 0); [|now split].
+    intros He. split; [exact Z|]. now apply acct_access.
+  - (* Send *)
+    destruct (alive H && Nat.eqb (owner H) t && match lent H with [] => true | _ :: _ => false end) eqn:G; cbn [negb]; [|now split].
+    destruct (exclusive_facts _ _ _ G) as (Ha & _). intros _. split; [|exact D]. cbn [hds freed]. rewrite nal_relabel by auto. exact Z.
+  - (* Lend *)
+    destruct (alive H && Nat.eqb (owner H) t) eqn:G; cbn [negb]; [|now split].
+    destruct (owner_knower _ _ _ G) as (Ha & _). intros _. split; [|exact D]. cbn [hds freed]. rewrite nal_relabel by auto. exact Z.
+  - (* BRead *) destruct (alive H && memn t (lent H)); [|now split]. unfold do_read. intros He. split; [exact Z|].
+    now apply acct_access.
+  - (* BClone *) destruct (alive H && memn t (lent H)); [|now split]. unfold do_clone. intros _. split; [|exact D].
+    cbn [hds]. rewrite nal_app. cbn. lia.
+  - (* Return *)
+    destruct (alive H && memn t (lent H)) eqn:G; cbn [negb]; [|now split].
+    destruct (borrower_knower _ _ _ G) as (Ha & _). intros _. split; [|exact D]. cbn [hds freed]. rewrite nal_relabel by auto. exact Z.
+  - (* Unwrap *)
+    destruct (alive H && Nat.eqb (owner H) t && match lent H with [] => true | _ :: _ => false end); cbn [negb]; [|now split].
+    destruct ((seen T <=? j) && (j <=? top s)); cbn [negb]; [|now split].
+    destruct (mval (msg_at s j) =? 0); [|now split].
+    intros He. split; [reflexivity|]. apply acct_access; [exact He|].
+    unfold do_access at 1 in He. cbn [err] in He. apply orb_false_elim in He as [He _].
+    apply acct_access; [exact He|exact D].
+Qed.
+
+Theorem step_inv p s t h o : sound_proto p = true -> Inv s -> Inv (step p s t h o).
+Proof.
+  intros Hp [I Z D L]. pose proof (step_inv0 p s t h o Hp I) as I'.
+  destruct (step_acct p s t h o I I' Z (conj D L)) as [Z' [D' L']]. now split.
 Qed.
 
 Theorem run_inv p : sound_proto p = true -> forall sc s, Inv s -> Inv (fold_left (fun s '(t, h, o) => step p s t h o) sc s).
 Proof. intros Hp. induction sc as [|[[t h] o] sc IH]; intros s I; cbn [fold_left]; [exact I|]. apply IH. now apply step_inv. Qed.
-Lemma inv_init : Inv init.
+Lemma inv0_init : Inv0 init.
 Proof.
   split.
   - reflexivity.
@@ -401,11 +576,251 @@ Proof.
   - intros a Hin. cbn in Hin. contradiction.
   - intros a Hin. cbn in Hin. contradiction.
 Qed.
+Lemma inv_init : Inv init.
+Proof. split; [exact inv0_init | cbn; discriminate | reflexivity | cbn; discriminate]. Qed.
+Lemma inv_run p sc : sound_proto p = true -> Inv (run p sc).
+Proof. intros Hp. apply run_inv; [exact Hp|apply inv_init]. Qed.
+Lemma run_snoc p sc t h o : run p (sc ++ [(t, h, o)]) = step p (run p sc) t h o.
+Proof. unfold run. now rewrite fold_left_app. Qed.
+
+(** ** Main theorem 1: no data race, no use after free, under every schedule *)
 (* every protocol meeting the side condition, every schedule, any number of threads, handles, loans *)
 Theorem race_free_all_schedules : forall p, sound_proto p = true -> forall sc, err (run p sc) = false.
-Proof. intros p Hp sc. apply i_err. apply run_inv; [exact Hp|apply inv_init]. Qed.
+Proof. intros p Hp sc. apply i_err, i_0. now apply inv_run. Qed.
 Corollary pinned_protocol_ok : forall sc, err (run sound sc) = false.
 Proof. apply race_free_all_schedules. reflexivity. Qed.
 Corollary relaxed_incr_ok : forall sc, err (run {| incr_release := false; decr_release := true; free_fence := true; uniq_fence := true |} sc) = false.
 Proof. apply race_free_all_schedules. reflexivity. Qed.
+
+(** ** Main theorem 2: the box is freed exactly when the last handle is gone, and at most once.
+    "Not before": freed -> no alive handle.  "Not leaked": no alive handle -> freed.  "Once": a second free would be an
+    access after [freed], which sets [err] (theorem 1); explicitly, the access log never contains two free accesses. *)
+Theorem freed_iff_no_handle : forall p, sound_proto p = true -> forall sc, freed (run p sc) = true <-> nal (hds (run p sc)) = 0.
+Proof.
+  intros p Hp sc. pose proof (inv_run p sc Hp) as I. split.
+  - intros Hf. destruct (Nat.eq_dec (nal (hds (run p sc))) 0) as [E|E]; [exact E|].
+    destruct (i_cnt _ (i_0 _ I)) as [X _]; [lia|congruence].
+  - apply (i_Z _ I).
+Qed.
+Theorem no_double_free : forall p, sound_proto p = true -> forall sc,
+  length (filter (fun a => match akd a with AF => true | _ => false end) (accs (run p sc))) <= 1.
+Proof.
+  intros p Hp sc. pose proof (i_D _ (inv_run p sc Hp)) as D. change (nfree (run p sc) <= 1). rewrite D.
+  destruct (freed (run p sc)); lia.
+Qed.
+
+(** ** Main theorem 3: mutable access / ownership / release only for the sole owner, after everything else.
+    [exclusive_grant s s' t h]: in the state [s] in which thread [t] acts through handle [h], that handle is alive,
+    owned by [t] and not lent to anybody; it is the ONLY alive handle ("no other value still refers to the buffer");
+    and every access [b] ever made to the payload -- by any thread, through any handle, in particular through all the
+    former co-owners -- happens-before the granted access: its epoch is covered by the vector clock that thread [t]
+    holds after the uniqueness load and Acquire fence ([clk (ths s' t)], the clock with which the access is recorded). *)
+Definition exclusive_grant (s s' : st) (t h : nat) : Prop :=
+  alive (hnd_at s h) = true /\ owner (hnd_at s h) = t /\ lent (hnd_at s h) = [] /\
+  nal (hds s) = 1 /\ (forall g, alive (hnd_at s g) = true -> g = h) /\
+  (forall b, In b (accs s) -> aep b <= clk (ths s' t) (atid b)).
+(* the access record written by thread t through handle h with the clock it holds in s' *)
+Definition acc_of (s' : st) (t h : nat) (k : akind) : acc := {| atid := t; aep := clk (ths s' t) t; akd := k; ahnd := h |}.
+
+Lemma sound_proto_fields p : sound_proto p = true -> decr_release p = true /\ free_fence p = true /\ uniq_fence p = true.
+Proof. unfold sound_proto. intros Hp. apply andb_prop in Hp as [Hp H3]. apply andb_prop in Hp as [H1 H2]. auto. Qed.
+
+Lemma grant_intro s s' t h c' : Inv0 s -> alive (hnd_at s h) = true -> owner (hnd_at s h) = t -> lent (hnd_at s h) = [] ->
+  knowers s h = [t] -> nal (hds s) = 1 -> clk (ths s' t) = c' ->
+  vle (clk (ths s t)) c' -> vle (mview (msg_at s (top s))) c' -> exclusive_grant s s' t h.
+Proof.
+  intros I Ha Ho HL Hkn H1 Hc Hcc Hmc. repeat split; auto.
+  - intros g Hg. exact (nal_one (hds s) g h dh H1 eq_refl Hg Ha).
+  - rewrite Hc. exact (sole_hb s t h c' I Ha Hkn H1 Hcc Hmc).
+Qed.
+
+(* TryMut either records nothing or records exactly one write access, and then the grant is exclusive *)
+Lemma trymut_cases p s t h j : sound_proto p = true -> Inv0 s -> let s' := step p s t h (TryMut j) in
+  accs s' = accs s \/ (accs s' = acc_of s' t h AW :: accs s /\ exclusive_grant s s' t h).
+Proof.
+  intros Hp I. destruct (sound_proto_fields p Hp) as (_ & _ & Hp3). cbn zeta. unfold step.
+  destruct (alive (hnd_at s h) && Nat.eqb (owner (hnd_at s h)) t && match lent (hnd_at s h) with [] => true | _ :: _ => false end) eqn:G;
+    cbn [negb]; [|now left].
+  destruct (exclusive_facts _ _ _ G) as (Ha & Ho & HL & Hkn).
+  destruct ((seen (ths s t) <=? j) && (j <=? top s)) eqn:Gj; cbn [negb]; [|now left].
+  apply andb_prop in Gj as [Hsj Hjt]. apply Nat.leb_le in Hsj. apply Nat.leb_le in Hjt.
+  destruct (mval (msg_at s j) =? 0) eqn:Ez; [|now left].
+  apply Nat.eqb_eq in Ez. right. rewrite Hp3. destruct (sole_latest s t h j I Ha Hkn Hsj Hjt Ez) as [Hj H1].
+  split; [unfold acc_of, do_access, with_thr; cbn [accs ths]; rewrite updf_eq; reflexivity|].
+  eapply grant_intro; [exact I|exact Ha|exact Ho|exact HL|exact Hkn|exact H1| | |].
+  - unfold do_access, with_thr; cbn [ths]. rewrite updf_eq. cbn [clk]. reflexivity.
+  - eapply vle_trans; [apply vle_bump | apply vle_join_l].
+  - rewrite <- Hj. intros x. unfold vjoin. lia.
+Qed.
+
+(* Unwrap either records nothing (and changes neither handles nor [freed]) or records a write and a free access, and
+   then the grant is exclusive *)
+Lemma unwrap_cases p s t h j : sound_proto p = true -> Inv0 s -> let s' := step p s t h (Unwrap j) in
+  accs s' = accs s \/ (accs s' = acc_of s' t h AF :: acc_of s' t h AW :: accs s /\ exclusive_grant s s' t h).
+Proof.
+  intros Hp I. destruct (sound_proto_fields p Hp) as (_ & _ & Hp3). cbn zeta. unfold step.
+  destruct (alive (hnd_at s h) && Nat.eqb (owner (hnd_at s h)) t && match lent (hnd_at s h) with [] => true | _ :: _ => false end) eqn:G;
+    cbn [negb]; [|now left].
+  destruct (exclusive_facts _ _ _ G) as (Ha & Ho & HL & Hkn).
+  destruct ((seen (ths s t) <=? j) && (j <=? top s)) eqn:Gj; cbn [negb]; [|now left].
+  apply andb_prop in Gj as [Hsj Hjt]. apply Nat.leb_le in Hsj. apply Nat.leb_le in Hjt.
+  destruct (mval (msg_at s j) =? 0) eqn:Ez; [|now left].
+  apply Nat.eqb_eq in Ez. right. rewrite Hp3. destruct (sole_latest s t h j I Ha Hkn Hsj Hjt Ez) as [Hj H1].
+  split; [unfold acc_of, do_access; cbn [accs ths]; rewrite updf_eq; reflexivity|].
+  eapply grant_intro; [exact I|exact Ha|exact Ho|exact HL|exact Hkn|exact H1| | |].
+  - unfold do_access; cbn [ths]. rewrite updf_eq. cbn [clk]. reflexivity.
+  - eapply vle_trans; [apply vle_bump | apply vle_join_l].
+  - rewrite <- Hj. intros x. unfold vjoin. lia.
+Qed.
+
+(* Drop either records nothing or records exactly one free access, and then it was the last handle and everything
+   happens-before the free *)
+Lemma drop_cases p s t h : sound_proto p = true -> Inv0 s -> let s' := step p s t h Drop in
+  accs s' = accs s \/ (accs s' = acc_of s' t h AF :: accs s /\ exclusive_grant s s' t h).
+Proof.
+  intros Hp I. destruct (sound_proto_fields p Hp) as (_ & Hp2 & _). cbn zeta. unfold step.
+  destruct (alive (hnd_at s h) && Nat.eqb (owner (hnd_at s h)) t && match lent (hnd_at s h) with [] => true | _ :: _ => false end) eqn:G;
+    cbn [negb]; [|now left].
+  destruct (exclusive_facts _ _ _ G) as (Ha & Ho & HL & Hkn).
+  destruct (i_cnt _ I (alive_nal _ _ Ha)) as [_ Hcnt].
+  destruct (mval (msg_at s (top s)) =? 0) eqn:Ez; [|now left].
+  apply Nat.eqb_eq in Ez. right. rewrite Hp2. cbn [andb].
+  split; [unfold acc_of, do_access; cbn [accs ths]; rewrite updf_eq; reflexivity|].
+  eapply grant_intro; [exact I|exact Ha|exact Ho|exact HL|exact Hkn|lia| | |].
+  - unfold do_access; cbn [ths]. rewrite updf_eq. cbn [clk]. reflexivity.
+  - eapply vle_trans; [apply vle_bump | apply vle_join_l].
+  - intros x. unfold vjoin. lia.
+Qed.
+
+(* which operations can record which kind of access (pure computation, no invariant needed) *)
+Lemma step_new_accs p s t h o : exists new, accs (step p s t h o) = new ++ accs s /\
+  forall a, In a new -> match akd a with
+                        | AR => True
+                        | AW => exists j, o = TryMut j \/ o = Unwrap j
+                        | AF => o = Drop \/ exists j, o = Unwrap j
+                        end.
+Proof.
+  assert (exists new : list acc, accs s = new ++ accs s /\ forall a, In a new ->
+            match akd a with AR => True | AW => exists j, o = TryMut j \/ o = Unwrap j | AF => o = Drop \/ exists j, o = Unwrap j end) as Hnil
+    by (exists []; split; [reflexivity|intros a []]).
+  unfold step. destruct o as [| | |j|t'|t'| | | |j]; cbv zeta;
+    repeat match goal with |- context [accs (if ?b then _ else _)] => destruct b end; try exact Hnil;
+    unfold do_read, do_clone, do_access, with_thr; cbn [accs].
+  - eexists [_]. split; [reflexivity|]. intros a [<-|[]]. exact I.
+  - eexists [_]. split; [reflexivity|]. intros a [<-|[]]. cbn. now left.
+  - eexists [_]. split; [reflexivity|]. intros a [<-|[]]. cbn. exists j. now left.
+  - eexists [_]. split; [reflexivity|]. intros a [<-|[]]. exact I.
+  - eexists [_; _]. split; [reflexivity|]. intros a [<-|[<-|[]]]; cbn; [right|]; exists j; [reflexivity|now right].
+Qed.
+
+(** One step, any state satisfying the invariant: every non-read access that the step records -- a write (in-place
+    mutation by TryMut, taking ownership by Unwrap) or a free (last Drop, Unwrap) -- is recorded for the acting thread
+    and handle with the thread's post-fence clock, and the grant is exclusive. *)
+Lemma grant_exclusive p s t h o new a : sound_proto p = true -> Inv s ->
+  accs (step p s t h o) = new ++ accs s -> In a new -> akd a <> AR ->
+  a = acc_of (step p s t h o) t h (akd a) /\ exclusive_grant s (step p s t h o) t h /\
+  match akd a with
+  | AR => False
+  | AW => exists j, o = TryMut j \/ o = Unwrap j
+  | AF => o = Drop \/ exists j, o = Unwrap j
+  end.
+Proof.
+  intros Hp [I _ _ _] Hnew Hin Hk.
+  assert (forall l, accs (step p s t h o) = l ++ accs s -> new = l) as Huniq
+    by (intros l El; rewrite El in Hnew; symmetry; exact (app_inv_tail _ _ _ Hnew)).
+  destruct (step_new_accs p s t h o) as (new0 & E0 & Hops). pose proof (Huniq _ E0) as ->. specialize (Hops a Hin).
+  assert (forall o', o = o' -> let s' := step p s t h o' in
+            accs s' = accs s \/ (exists l, accs s' = l ++ accs s /\ exclusive_grant s s' t h /\
+                                  forall b, In b l -> b = acc_of s' t h (akd b)) ->
+            a = acc_of (step p s t h o) t h (akd a) /\ exclusive_grant s (step p s t h o) t h) as Hfin.
+  { intros o' <-. cbn zeta. intros [E|(l & E & Hg & Hl)].
+    - pose proof (Huniq [] E) as ->. destruct Hin.
+    - pose proof (Huniq l E) as ->. split; [exact (Hl a Hin)|exact Hg]. }
+  destruct (akd a) eqn:Ek; [congruence| |].
+  - destruct Hops as [j [-> | ->]]; (apply and_assoc; split; [|eauto]); apply (Hfin _ eq_refl).
+    + destruct (trymut_cases p s t h j Hp I) as [E|[E Hg]]; [now left|right]. eexists [_]. split; [exact E|]. split; [exact Hg|].
+      intros b [<-|[]]. reflexivity.
+    + destruct (unwrap_cases p s t h j Hp I) as [E|[E Hg]]; [now left|right]. eexists [_; _]. split; [exact E|]. split; [exact Hg|].
+      intros b [<-|[<-|[]]]; reflexivity.
+  - destruct Hops as [-> | [j ->]]; (apply and_assoc; split; [|eauto]); apply (Hfin _ eq_refl).
+    + destruct (drop_cases p s t h Hp I) as [E|[E Hg]]; [now left|right]. eexists [_]. split; [exact E|]. split; [exact Hg|].
+      intros b [<-|[]]. reflexivity.
+    + destruct (unwrap_cases p s t h j Hp I) as [E|[E Hg]]; [now left|right]. eexists [_; _]. split; [exact E|]. split; [exact Hg|].
+      intros b [<-|[<-|[]]]; reflexivity.
+Qed.
+
+(* the formulation by "the step records an access": a TryMut step that records an access is an exclusive grant ... *)
+Corollary trymut_grant_exclusive p s t h j : sound_proto p = true -> Inv s ->
+  length (accs (step p s t h (TryMut j))) = S (length (accs s)) ->
+  accs (step p s t h (TryMut j)) = acc_of (step p s t h (TryMut j)) t h AW :: accs s /\
+  exclusive_grant s (step p s t h (TryMut j)) t h.
+Proof. intros Hp [I _ _ _] Hl. destruct (trymut_cases p s t h j Hp I) as [E|X]; [rewrite E in Hl; lia|exact X]. Qed.
+(* ... and so is an Unwrap step that records anything (it then records the write and the free) *)
+Corollary unwrap_grant_exclusive p s t h j : sound_proto p = true -> Inv s ->
+  length (accs (step p s t h (Unwrap j))) > length (accs s) ->
+  accs (step p s t h (Unwrap j)) = acc_of (step p s t h (Unwrap j)) t h AF :: acc_of (step p s t h (Unwrap j)) t h AW :: accs s /\
+  exclusive_grant s (step p s t h (Unwrap j)) t h.
+Proof. intros Hp [I _ _ _] Hl. destruct (unwrap_cases p s t h j Hp I) as [E|X]; [rewrite E in Hl; lia|exact X]. Qed.
+
+(** Whole executions.  Every write or free access [a] found in the log after ANY schedule [sc] was recorded by one
+    identifiable step of that schedule, [sc = sc1 ++ (atid a, ahnd a, o) :: sc2]; in the state reached by the prefix
+    [sc1] the acting handle was the only alive handle, un-lent and owned by the acting thread, and every access recorded
+    until then happens-before [a]. *)
+Lemma nonread_origin : forall p, sound_proto p = true -> forall sc a, In a (accs (run p sc)) -> akd a <> AR ->
+  exists sc1 o sc2, sc = sc1 ++ (atid a, ahnd a, o) :: sc2 /\
+    let s := run p sc1 in let s' := step p s (atid a) (ahnd a) o in
+    a = acc_of s' (atid a) (ahnd a) (akd a) /\ In a (accs s') /\ exclusive_grant s s' (atid a) (ahnd a) /\
+    match akd a with
+    | AR => False
+    | AW => exists j, o = TryMut j \/ o = Unwrap j
+    | AF => o = Drop \/ exists j, o = Unwrap j
+    end.
+Proof.
+  intros p Hp sc a. induction sc as [|[[t h] o] sc IH] using rev_ind; intros Hin Hk; [destruct Hin|].
+  rewrite run_snoc in Hin. destruct (step_new_accs p (run p sc) t h o) as (new & E & _). rewrite E in Hin.
+  apply in_app_or in Hin as [Hin|Hin].
+  - destruct (grant_exclusive p (run p sc) t h o new a Hp (inv_run p sc Hp) E Hin Hk) as (Ha & Hg & Hm).
+    assert (atid a = t) as Et by (rewrite Ha; reflexivity). assert (ahnd a = h) as Eh by (rewrite Ha; reflexivity).
+    exists sc, o, []. rewrite Et, Eh. split; [reflexivity|]. cbn zeta. split; [exact Ha|]. split; [|split; [exact Hg|exact Hm]].
+    rewrite E. apply in_or_app. now left.
+  - destruct (IH Hin Hk) as (sc1 & o1 & sc2 & -> & Rest). exists sc1, o1, (sc2 ++ [(t, h, o)]). split; [|exact Rest].
+    rewrite <- app_assoc. reflexivity.
+Qed.
+
+Theorem mutation_is_exclusive : forall p, sound_proto p = true -> forall sc a, In a (accs (run p sc)) -> akd a = AW ->
+  exists sc1 o sc2, sc = sc1 ++ (atid a, ahnd a, o) :: sc2 /\ (exists j, o = TryMut j \/ o = Unwrap j) /\
+    let s := run p sc1 in let s' := step p s (atid a) (ahnd a) o in
+    a = acc_of s' (atid a) (ahnd a) AW /\ In a (accs s') /\ exclusive_grant s s' (atid a) (ahnd a).
+Proof.
+  intros p Hp sc a Hin Hk. destruct (nonread_origin p Hp sc a Hin) as (sc1 & o & sc2 & E & X); [congruence|].
+  cbn zeta in X. rewrite Hk in X. destruct X as (Ha & Hi & Hg & Hm). exists sc1, o, sc2. cbn zeta. auto.
+Qed.
+
+(** The release (the free access) likewise: it is made by the last [Drop] or by [Unwrap], by the holder of the only
+    alive handle, after (happens-after) every access ever made; and it stays the most recent access of the log for
+    ever -- no schedule continues with an access to the payload. *)
+Theorem release_after_last_access : forall p, sound_proto p = true -> forall sc a, In a (accs (run p sc)) -> akd a = AF ->
+  (exists sc1 o sc2, sc = sc1 ++ (atid a, ahnd a, o) :: sc2 /\ (o = Drop \/ exists j, o = Unwrap j) /\
+     let s := run p sc1 in let s' := step p s (atid a) (ahnd a) o in
+     a = acc_of s' (atid a) (ahnd a) AF /\ In a (accs s') /\ exclusive_grant s s' (atid a) (ahnd a)) /\
+  exists l, accs (run p sc) = a :: l.
+Proof.
+  intros p Hp sc a Hin Hk. split.
+  - destruct (nonread_origin p Hp sc a Hin) as (sc1 & o & sc2 & E & X); [congruence|].
+    cbn zeta in X. rewrite Hk in X. destruct X as (Ha & Hi & Hg & Hm). exists sc1, o, sc2. cbn zeta. auto.
+  - pose proof (inv_run p sc Hp) as I. pose proof (i_F _ (i_0 _ I) a Hin Hk) as Hf.
+    destruct (i_L _ I Hf) as (b & l & El & Hb). pose proof (i_D _ I) as D. rewrite Hf in D. unfold nfree in D.
+    rewrite El in *. exists l. f_equal. destruct Hin as [->|Hin]; [reflexivity|exfalso].
+    cbn [filter] in D. unfold isAF at 1 in D. rewrite Hb in D. cbn [length] in D.
+    assert (In a (filter isAF l)) as X by (apply filter_In; split; [exact Hin|unfold isAF; now rewrite Hk]).
+    destruct (filter isAF l); [destruct X|cbn in D; lia].
+Qed.
+
 Print Assumptions race_free_all_schedules.
+Print Assumptions freed_iff_no_handle.
+Print Assumptions no_double_free.
+Print Assumptions grant_exclusive.
+Print Assumptions trymut_grant_exclusive.
+Print Assumptions unwrap_grant_exclusive.
+Print Assumptions mutation_is_exclusive.
+Print Assumptions release_after_last_access.
